@@ -14,6 +14,8 @@ func init() {
 			c.guard("RW.SIG", r.ruleSig)
 			c.guard("RW.ORACLE", r.ruleOracles)
 			c.guard("RW.RECOVER", r.ruleRecover)
+			// "invalid signature": a function returning a type that only spells like the iterator type is not a generator
+			c.guard("RW.ITERPRED", r.ruleIterPred)
 			// range over func / pointer-to-array / type parameter: rejected or left native, never lowered
 			// through an iterator that does not exist for them
 			c.guard("RW.RANGEDISPATCH", r.ruleRangeDispatch)
@@ -78,6 +80,9 @@ func init() {
 			// statements run in source order: what follows a yielding if / switch / loop waits for it
 			c.guard("RW.CLOSE", r.ruleCloseContract)
 			c.guard("RW.TMPL.FORPOST", func() { r.ruleScopeAgree(true, "forpost") })
+			// the yields of for / switch / if headers are produced too: the containment scan that decides whether a
+			// header (and a switch's breaks) needs lowering sees a yield however the call is spelled
+			c.guard("RW.ORACLE", r.ruleOracles)
 			// C01 answers for the supported subset: unlabelled break/continue (labelled forms, goto and fallthrough are C12's)
 			c.keep(func(o Obligation) bool {
 				if o.Rule == "RW.BRANCHCTX" {
@@ -96,6 +101,8 @@ func init() {
 					return strings.HasPrefix(o.Construct, "combine decision between statements")
 				case "RW.TMPL.FORPOST": // the scope of the post statement is C03's
 					return strings.HasPrefix(o.Construct, "yielding for-post is appended to the body only after")
+				case "RW.ORACLE": // which function a yield belongs to is C12's / C13's
+					return strings.HasPrefix(o.Construct, "containsYield")
 				}
 				return true
 			})
@@ -138,12 +145,19 @@ func init() {
 			// a yielded expression reads its variables when the yield is reached: the Delay around a Bind may only
 			// be elided for basic literals (a composite literal mentioning locals would be evaluated once, early)
 			c.guard("OPT.WHITELIST", func() { r.ruleOptWhitelist(s3) })
+			// a nested block is a scope: it reaches the output as a block, its statements are not spliced into the
+			// enclosing list (a `var` / `const` / `type` declared in it would shadow for the rest of the outer block)
+			c.guard("RW.NOLOSS", func() { r.ruleCoverKinds(map[string]bool{"BlockStmt": true}) })
 			// scoping only: the combine table, hoisting (not return rewriting), the consumer loop's binding form
 			c.keep(func(o Obligation) bool {
 				switch o.Rule {
 				case "RW.KINDTAB":
 					return o.Construct == "combineRequired"
 				case "RW.TMPL.RETURN", "RW.TMPL.RANGE.TUPLE": // evaluation order of '=' range bindings is C04's
+					return false
+				case "RW.NOLOSS":
+					return strings.HasPrefix(o.Construct, "block") && !strings.Contains(o.Construct, "no part twice")
+				case "RW.DISPATCH", "RW.FIELDCOV", "RW.DEEPVISIT", "RW.BLOCKSTATE":
 					return false
 				case "RW.TMPL.SWITCH": // dropped clauses are C01's; only the guard's binding is scoping
 					return false
@@ -263,6 +277,7 @@ func init() {
 			c.guard("RW.TMPL.CONSUMER", r.ruleTmplConsumer)
 			c.guard("RW.TMPL.CONSUMER", r.ruleConsumerDispatch)
 			c.guard("RW.TMPL.ITERTYPE", r.ruleIterType)
+			c.guard("RW.ITERPRED", r.ruleIterPred)
 			c.guard("RW.FILEPASSES", r.ruleFilePasses)
 			// pull-style code: a consumer's closure `func() bool { return cur.MoveNext() }` over its own iterator
 			// variable must keep reading the variable at each call (a method value binds the receiver once)
@@ -281,7 +296,8 @@ func init() {
 				case "SEQ.LAZY":
 					return false
 				case "RW.FILEPASSES":
-					return strings.HasPrefix(o.Construct, "order of passes")
+					// ... and what the iterator-type predicate remembers does not outlive the file it was learnt in
+					return strings.HasPrefix(o.Construct, "order of passes") || strings.HasPrefix(o.Construct, "per-file state")
 				case "OPT.ETA":
 					return strings.HasPrefix(o.Construct, "callee is a method value") || o.Construct == "pattern shape" || o.Construct == "liveness"
 				}
@@ -313,6 +329,9 @@ func init() {
 			c.guard("OPT.RULES", r.ruleOptRules)
 			c.guard("OPT.ETA", r.ruleOptEta)
 			c.guard("OPT.ORDER", r.ruleOptOrder)
+			// a verdict of the optimiser that is remembered must be remembered under something that determines it
+			// (the resolved callee, not its spelling: a shadowing function variable of the same name is not stable)
+			c.guard("OPT.MEMO", r.ruleMemo)
 			c.guard("RW.TMPL.COMBINE", r.ruleTmplCombine)
 			c.guard("RW.TMPL.FOR", r.ruleTmplFor)
 			c.keep(func(o Obligation) bool {
@@ -352,6 +371,9 @@ func init() {
 			c.guard("RW.TMPL.ITERTYPE", r.ruleIterType)
 			c.guard("RW.NODECL", func() { ruleRwNoDecl(c) })
 			c.guard("RW.ORACLE", r.ruleOracles)
+			c.guard("OPT.MEMO", r.ruleMemo)
+			// a bystander's own type that merely spells like the API's iterator type is not rewritten
+			c.guard("RW.ITERPRED", r.ruleIterPred)
 			// C13 answers for code that is not a generator: ordinary closures nested in generators, non-iterator index expressions
 			c.keep(func(o Obligation) bool {
 				switch o.Rule {
@@ -411,8 +433,13 @@ func init() {
 			// ... and which channel element comes next is received when it is demanded (no read-ahead)
 			c.guard("ITER.CHAN", s.ruleIterChan)
 			c.guard("RW.CLOSE", r.ruleCloseContract)
+			// a range operand is evaluated once, by the advance that enters the loop: it is the argument of the
+			// iterator constructor placed in front of the loop (inside a loop condition it would run at every advance)
+			c.guard("RW.RANGEDISPATCH", r.ruleRangeDispatch)
 			c.keep(func(o Obligation) bool {
 				switch o.Rule {
+				case "RW.RANGEDISPATCH": // which kinds are supported, and whether the result builds, is C04's / C11's / C12's
+					return strings.HasPrefix(o.Construct, "range over ") && !strings.Contains(o.Construct, "pointer") && !strings.Contains(o.Construct, "func") && !strings.Contains(o.Construct, "type param") && !strings.Contains(o.Construct, "typeparam") && !strings.Contains(o.Construct, "defined type")
 				case "RW.CLOSE":
 					return strings.HasPrefix(o.Construct, "combine decision between statements")
 				case "OPT.ETA":
@@ -466,6 +493,12 @@ func init() {
 			c.guard("OPT.ORDER", r.ruleOptOrder)
 			c.guard("RW.TMPL.CONSUMER", r.ruleTmplConsumer)
 			c.guard("RW.RANGEDISPATCH", r.ruleRangeDispatch)
+			// every mention of the iterator type is replaced, however it is spelled (a result that became
+			// seq.Iterator[T] does not fit a parameter / field / variable that stayed co.Iter[T])
+			c.guard("RW.TMPL.ITERTYPE", r.ruleIterType)
+			// a yield statement is recognised as one however the call is spelled (collected as a generator but not
+			// recognised by the statement rewriter, the compiler ends in "yield not supported here")
+			c.guard("RW.ORACLE", r.ruleOracles)
 			// C11 answers for panics and unbuildable output only
 			buildBreaking := []string{"builtin", "conversion", "generic function with inferred", "types differ", "unresolved identifier", "pattern shape", "liveness"}
 			c.keep(func(o Obligation) bool {
@@ -490,6 +523,10 @@ func init() {
 					return false
 				case "RW.TMPL.CONSUMER":
 					return strings.Contains(o.Construct, "nested in its own block")
+				case "RW.TMPL.ITERTYPE": // leaving other index expressions alone is C13's
+					return !strings.Contains(o.Construct, "= false")
+				case "RW.ORACLE":
+					return strings.HasPrefix(o.Construct, "isCallStmtOf")
 				}
 				return true
 			})
@@ -523,8 +560,13 @@ func init() {
 			// the sources are loaded under, also for a custom tag, so a later run never sees them
 			c.guard("GEN.TAG", r.ruleGoGen)
 			c.guard("DET.TESTMODE", r.ruleTestMode)
+			// the optimisation passes run over every loaded file each time one file is visited: a file's imports are
+			// cleaned after they have run for it, otherwise the first visited file alone keeps what the others lose
+			c.guard("OPT.ORDER", r.ruleOptOrder)
 			c.keep(func(o Obligation) bool {
 				switch o.Rule {
+				case "OPT.ORDER":
+					return o.Construct == "imports cleaned after the last optimisation"
 				case "GEN.FILTER", "GEN.NAME":
 					return false // C16
 				case "RW.TMPL.RANGE", "RW.TMPL.RANGE.TUPLE":
@@ -557,8 +599,13 @@ func init() {
 			c.guard("RW.ALLFILES", func() { r.ruleAllFiles(false) })
 			c.guard("GEN.ENV", r.ruleGenEnv)
 			c.guard("DET.TESTMODE", r.ruleTestMode)
+			// a derived file is written for every co file with a generator: the second stage recognises such a file by
+			// its import of the runtime, which the first stage adds to the *file* when the file lacks it
+			c.guard("RW.IMPORT", r.ruleImport)
 			c.keep(func(o Obligation) bool {
 				switch o.Rule {
+				case "RW.IMPORT":
+					return strings.Contains(o.Construct, "absent")
 				case "DET.TMP":
 					return strings.HasPrefix(o.Construct, "GoGen")
 				case "OPT.ORDER": // exactly one derived file per source file that uses the API
